@@ -361,7 +361,7 @@ def run(ctx):
         lap("connrace/race")
         conn_suite(ctx, vh, "window", ["-seed", seed + 4, "-n", 4, "-emitters", 2, "-burst", 12, "-window", "-par", 4])
         lap("connrace/window")
-        recv_suite(ctx, vh, "two", ["-seed", seed + 5, "-n", 8, "-par", 4])
+        recv_suite(ctx, vh, "two", ["-seed", seed + 5, "-n", 6, "-par", 3])
         lap("recv")
     else:
         wire_suite(ctx, vh, "burst", ["-seed", seed, "-n", 144, "-burst", 40, "-par", 6])
